@@ -71,6 +71,7 @@ def vh(binary, args, stdin_path=None, stdout_path=None, timeout=3600, env=None, 
     e.setdefault("RUST_BACKTRACE", "0")
     if env:
         e.update(env)
+    t_vh = time.time()
     sin = open(stdin_path, "rb") if stdin_path else subprocess.DEVNULL
     sout = open(stdout_path, "wb") if stdout_path else subprocess.PIPE
     try:
@@ -84,6 +85,7 @@ def vh(binary, args, stdin_path=None, stdout_path=None, timeout=3600, env=None, 
         if stdout_path:
             sout.close()
     out = "" if stdout_path else p.stdout.decode("utf-8", "replace")
+    log("%s %s: %.1fs" % (binary, " ".join(map(str, args[:2])), time.time() - t_vh))
     if check and p.returncode != 0:
         sys.stderr.write(p.stderr.decode("utf-8", "replace")[-4000:])
         raise ToolError("harness failed rc=%d: vh %s" % (p.returncode, " ".join(map(str, args))))
@@ -154,13 +156,14 @@ _tlc_counter = [0]
 
 def tlc(spec_dir, module, cfg=None, workers=8, simulate=None, depth=None, seed=None,
         env=None, timeout=1800, heap="4g", coverage=True, deadlock=False, extra=None,
-        dfs=False, stack="64m", out_file=None, consts=None):
+        dfs=False, stack="64m", out_file=None, consts=None, libs=()):
     """Run TLC on spec/<spec_dir>/<module>.tla. Returns TlcResult. Raises ToolError on timeout/crash."""
     d = os.path.join(SPEC, spec_dir)
     _tlc_counter[0] += 1
     meta = os.path.join(WORK, "tlc-%s-%d-%d" % (module, os.getpid(), _tlc_counter[0]))
     os.makedirs(meta, exist_ok=True)
-    jopts = "-Xss%s -Xmx%s -XX:+UseParallelGC -DTLA-Library=%s" % (stack, heap, os.path.join(SPEC, "common"))
+    libpath = os.pathsep.join([os.path.join(SPEC, "common")] + [os.path.join(SPEC, x) for x in libs])
+    jopts = "-Xss%s -Xmx%s -XX:+UseParallelGC -DTLA-Library=%s" % (stack, heap, libpath)
     if dfs:
         jopts += " -Dtlc2.tool.queue.IStateQueue=StateDeque"
     cp = ":".join([TLA_JAR, COMMUNITY, os.path.join(SPEC, "common")])
@@ -211,6 +214,7 @@ def tlc(spec_dir, module, cfg=None, workers=8, simulate=None, depth=None, seed=N
     shutil.rmtree(meta, ignore_errors=True)
     r = TlcResult(p.returncode, out)
     r.wall = time.time() - t0
+    log("tlc %s/%s %s: %.1fs, %d distinct states" % (spec_dir, module, cfg or "", r.wall, r.distinct))
     return r
 
 
@@ -244,7 +248,7 @@ def read_ndjson(path):
     return res
 
 
-def validate_trace(spec_dir, module, trace_path, cfg=None, timeout=1800, heap="2g", dfs=False, env=None):
+def validate_trace(spec_dir, module, trace_path, cfg=None, timeout=1800, heap="2g", dfs=False, env=None, libs=()):
     """Stateful trace validation. The trace module must define POSTCONDITION that prints
     <<"TRACE-REJECTED", d>> (d = 1-based index of first unmatched event) when not accepted.
     Returns (accepted, first_unmatched_index or None, TlcResult)."""
@@ -252,7 +256,7 @@ def validate_trace(spec_dir, module, trace_path, cfg=None, timeout=1800, heap="2
     if env:
         e.update(env)
     r = tlc(spec_dir, module, cfg=cfg, workers=1, env=e, timeout=timeout, heap=heap,
-            coverage=False, dfs=dfs, stack="1g")
+            coverage=False, dfs=dfs, stack="1g", libs=libs)
     m = re.search(r'<<"TRACE-REJECTED", (\d+)', r.out)
     if m:
         return False, int(m.group(1)), r
